@@ -664,6 +664,10 @@ def work(item):
             try:
                 from .. import e2
                 vals += [x for x in e2.valid_set(name, m, 'quick', nseeds=2, cap=6)[0] if x not in vals]
+                # numbers that carry special dates (two-digit years on both sides of the clock answers)
+                from .. import synth
+                dn = [x for x in synth.date_numbers(name, m, sv) if e2._accepts(m, x, {}) and x not in vals]
+                vals += dn[::max(1, len(dn) // 12)][:12]
             except Exception:
                 pass
             for v in vals:
